@@ -138,7 +138,8 @@ func (rb *Rebalancer) ServeHTTP(w http.ResponseWriter, req *http.Request) {
 		}
 
 		if present {
-			newReq.URL = cookieURL
+			// hand out a copy: downstream handlers may edit the request URL
+			newReq.URL = utils.CopyURL(cookieURL)
 			stuck = true
 		}
 	}
